@@ -583,6 +583,9 @@ def persist(res, rng, tier):
     n = 0
     ncases = 40 if tier == "quick" else 400
     loaders = {"linear": s.CountMinLinear.load, "log16": s.CountMinLog16.load, "log8": s.CountMinLog8.load, "hh": s.HeavyHitters.load, "hll": s.HyperLogLog.load}
+    # the cases share THREE file paths (a checkpoint path is re-used, also by sketches of another class or counter type):
+    # whatever a loader remembers about a path must not outlive the file's contents
+    shared_paths = [tmpfile() for _ in range(3)]
     for _ in range(ncases):
         kind, kw, o = _rand_sketch(rng)
         draws = np().array([0.0 if rng.random() < 0.5 else ONE_MINUS for _ in range(2048)])
@@ -592,7 +595,8 @@ def persist(res, rng, tier):
             o.add(rng.choice(keys), rng.choice([1, 1, 2, 5, 2**32 - 1 if kind in ("linear", "hh") else 3]))
         if kind != "hll":
             o.n_added_records[1] += np().uint64(rng.randrange(0, 50))
-        path = tmpfile()
+        path = rng.choice(shared_paths)
+        res.count("persist_saves_over_an_existing_file")
         try:
             o.save(path)
             shm = rng.random() < 0.4
@@ -622,8 +626,13 @@ def persist(res, rng, tier):
                 res.oracle_failures.append({"pid": "C10", "what": f"C10 loaded {what}: query(5) differs: {l.query(5)} vs {o.query(5)}", "kind": kind})
             # module-level dispatch and cross-loaders (count-min)
             if kind in ("linear", "log16", "log8"):
-                m = s.load(path)
-                if type(m) is not type(o) or _state(m) != _state(o):
+                try:
+                    m = s.load(path)
+                except Exception as e:
+                    m = None
+                    res.oracle_failures.append({"pid": "C10", "what": f"C10 module-level load() of a file just written by {what} raised {type(e).__name__}: {e} "
+                                                                         "(the path had held sketches of other classes before)", "kind": kind})
+                if m is not None and (type(m) is not type(o) or _state(m) != _state(o)):
                     res.oracle_failures.append({"pid": "C10", "what": f"C10 module-level load() of a saved {what} gave {type(m).__name__}", "kind": kind})
                 for other in ("linear", "log16", "log8"):
                     if other != kind:
@@ -682,6 +691,9 @@ def persist(res, rng, tier):
         res.count("persist_" + kind)
         res.sample({"slice": "persist", "class": kind, "args": {k: str(v) for k, v in kw.items()}, "shared_memory_load": shm})
         del o
+    for sp in shared_paths:
+        if os.path.exists(sp):
+            os.unlink(sp)
     # constructor validation grid: real acceptance vs the model's ctorValid
     grid = []
     for w, d in ((0, 1), (1, 0), (1, 1), (-1, 2)):
@@ -781,6 +793,12 @@ def entry_real(res, rng, tier):
             desc = {"dict": {k.hex(): v for k, v in dct.items()}}
         elif entry == "add_mult":
             k, v = rng.choice(keys), rng.choice([1, 2, 5, 17, 100, 1000, 10**4 if kind in ("linear", "hh", "hll") else 700])
+            if kind in ("linear", "hh") and rng.random() < 0.4:
+                # start close below the 32-bit ceiling: the multiplicity add must saturate exactly like the single adds do
+                room = rng.choice([0, 1, 2, v - 1, v, v + 1, v // 2])
+                a.add(k, CAP - max(room, 0))
+                b.add(k, CAP - max(room, 0))
+                res.count("entry_mult_near_ceiling")
             a.add(k, v)
             for _ in range(v):
                 b.add(k)
